@@ -31,6 +31,8 @@ claimed = {
              text='All histories of SpawnSync calls over a call alphabet up to a depth on one live VM, each under all schedules within the delay bound; per-call results equal the reference model, no residue, failure instead of blocking after a failed call.', ref='5/C16'),
  'C17': dict(technique='stateless DFS over all thread interleavings of the real VM within a delay bound (controlled scheduler over lock/channel/select/sleep/spawn points)',
              text='All schedules within the delay bound for programs spawning 1-3 cores; each spawned function runs exactly once with spawn-time arguments, Wait returns only after all cores finished, fatal interrupt reported and the rest cancelled, no deadlock. Unsynchronised accesses are outside the scheduler model (auxiliary race-detector pass).', ref='5/C17'),
+ 'C20': dict(technique='exhaustive exploration of the transformer\'s random draws (scripted rand.Source as choice points) within a deviation bound, differential on the real pipeline',
+             text='Every draw of the fuzzer transformer is a choice point over an alphabet reaching every Intn index and Shuffle position; all draw sequences with <=1/<=2 non-default draws for 1-3 passes over hand-written inputs and shipped examples; every distinct variant must be accepted and behave like the original on the VM.', ref='5/C20'),
 }
 checks = []
 for pid, c in claimed.items():
